@@ -30,7 +30,16 @@ pub enum Error {
     /// A disallowed control code was encountered.
     #[error("disallowed control code '{c}'", c = .0.escape_unicode())]
     DisallowedControlCode(char),
+    /// Types or expressions are nested too deeply.
+    #[error("types and expressions may not be nested more than {MAX_NESTING_DEPTH} levels deep")]
+    NestingTooDeep,
 }
+
+/// The maximum nesting depth of types and expressions.
+///
+/// The parser (and every later pass over the tree) is recursive; without a
+/// limit a deeply nested input overflows the stack.
+pub const MAX_NESTING_DEPTH: usize = 256;
 
 impl From<()> for Error {
     fn from(_: ()) -> Self {
@@ -448,13 +457,32 @@ mod helpers {
 pub type LexerResult<T> = Result<T, Error>;
 
 /// Implements a WAC lexer.
-pub struct Lexer<'a>(SpannedIter<'a, Token>);
+pub struct Lexer<'a>(SpannedIter<'a, Token>, usize);
 
 impl<'a> Lexer<'a> {
     /// Creates a new lexer for the given source string.
     pub fn new(source: &'a str) -> Result<Self, (Error, SourceSpan)> {
         detect_invalid_input(source)?;
-        Ok(Self(Token::lexer(source).spanned()))
+        Ok(Self(Token::lexer(source).spanned(), 0))
+    }
+
+    /// Enters a nested type or expression.
+    ///
+    /// Returns an error if the nesting is too deep; otherwise the caller
+    /// must call `leave` when done with the nested construct.
+    pub fn enter(&mut self) -> Result<(), (Error, SourceSpan)> {
+        if self.1 >= MAX_NESTING_DEPTH {
+            let span = self.peek().map(|(_, span)| span).unwrap_or_else(|| self.span());
+            return Err((Error::NestingTooDeep, span));
+        }
+
+        self.1 += 1;
+        Ok(())
+    }
+
+    /// Leaves a nested type or expression.
+    pub fn leave(&mut self) {
+        self.1 -= 1;
     }
 
     /// Gets the source string of the given span.
